@@ -20,14 +20,19 @@ import (
 	"github.com/youchainhq/go-youchain/local"
 	"pgregory.net/rapid"
 	"verif/kit"
+	"github.com/youchainhq/go-youchain/staking"
 	sc "verif/lib/stakechain"
+	"verif/lib/stakeworker"
 )
 
 func TestMain(m *testing.M)   { kit.Main(m, "C06") }
 func TestProps(t *testing.T)  { kit.RunAll(t) }
 func TestReplay(t *testing.T) { kit.ReplayAll(t) }
 
-const classZeroPenalty = "zero-penalty-divergence"
+const (
+	classZeroPenalty = "zero-penalty-divergence"
+	classNegRec      = "negative-pending-record"
+)
 
 // Case is a chain history plus the sampling of the determinism re-runs.
 type Case struct {
@@ -38,6 +43,7 @@ type Case struct {
 	Reruns int            `json:"reruns"`          // K: executions of a sampled block on fresh state objects
 	MaxRe  int            `json:"max_re"`          // at most this many blocks are re-executed per case
 	Every  int            `json:"every"`           // also re-execute every n-th trivial block
+	Cross  bool           `json:"cross,omitempty"` // also assemble every worker-built block with the mirrored builder and compare
 	Blocks []sc.BlockSpec `json:"blocks"`
 }
 
@@ -51,7 +57,7 @@ func genCase(t *rapid.T) Case {
 	cfg := &sc.Configs[c.Cfg]
 	// zero-stake-division is a crash in takePenalty that belongs to C05; it is kept out while the
 	// tree still has it (probed once per process).
-	c.Excl = sc.Excl{ZeroStake: sc.ZeroStakePenaltyPanics(c.Cfg), ZeroToken: kit.IsKnown(classZeroPenalty)}
+	c.Excl = sc.Excl{ZeroStake: sc.ZeroStakePenaltyPanics(c.Cfg), ZeroToken: kit.IsKnown(classZeroPenalty), NoNegRec: kit.IsKnown(classNegRec)}
 	c.Gen = sc.GenGenesis(t, cfg)
 	maxBlocks := 40
 	if kit.Thorough() {
@@ -61,6 +67,22 @@ func genCase(t *rapid.T) Case {
 	c.Blocks = sc.GenBlocks(t, c.Gen, int(cfg.Freq), n, 2)
 	if rapid.IntRange(0, 3).Draw(t, "batch") == 3 {
 		c.Batch = rapid.IntRange(2, 9).Draw(t, "batchsize")
+	}
+	c.Cross = rapid.IntRange(0, 2).Draw(t, "cross") == 0
+	// Directed scenario (half of the cases) for the worker's gas-pool accounting: in one pool-built
+	// block an account first spends (nearly) everything, so that its second transaction - with a
+	// gas limit of 90 % of the block - fails in buyGas (the "default" error branch of
+	// commitTransactions); two more senders submit failing staking transactions with the same huge
+	// gas limit, each of which burns all of it. Exactly one of the two fits into the block.
+	if rapid.Bool().Draw(t, "gas-scenario") {
+		at := rapid.IntRange(0, n-1).Draw(t, "gas-at")
+		b := &c.Blocks[at]
+		b.Pool = true
+		b.Ops = append(b.Ops,
+			sc.Op{K: "xfer", A: sc.AcctPlain, X: sc.AcctPlain + 1, M: 2, P: 5},
+			sc.Op{K: "xfer", A: sc.AcctPlain, X: sc.AcctPlain + 1, M: 4, P: 5, G: 12},
+			sc.Op{K: "raw", A: sc.AcctDeleg + 3, X: 0, P: 1, G: 12},
+			sc.Op{K: "raw", A: sc.AcctDeleg + 4, X: 0, P: 0, G: 12})
 	}
 	c.Reruns = 3
 	if kit.Thorough() {
@@ -185,6 +207,32 @@ func runChain(c Case, digestOnly bool) (kit.Result, string) {
 		defer third.Stop()
 	}
 	w := sc.NewWorld(net)
+	// Builder: blocks whose transactions go through the pool are built by the REAL
+	// miner.worker.commitNewWork (synchronously, through the miner shim); blocks that bypass
+	// the pool (transactions in case order) by the mirrored builder.
+	wb := stakeworker.New(net.A)
+	var workerBlocks, crossSame, crossDiff int
+	w.Builder = func(cb common.Address, txs []*types.Transaction, opt sc.BuildOpts) (*sc.Built, error) {
+		if !opt.UsePool || opt.SlashData != nil || opt.Replay {
+			return net.A.Build(cb, txs, opt)
+		}
+		var mirror *sc.Built
+		if c.Cross && !digestOnly && net.A.Stk.VerifPendingEvidences() == 0 {
+			mirror, _ = net.A.Build(cb, txs, sc.BuildOpts{UsePool: true, DryRun: true})
+		}
+		b, err := wb.Build(cb, txs)
+		if err == nil {
+			workerBlocks++
+			if mirror != nil {
+				if mirror.Block.Hash() == b.Block.Hash() {
+					crossSame++
+				} else {
+					crossDiff++
+				}
+			}
+		}
+		return b, err
+	}
 	h := sha256.New()
 	var (
 		pendingBatch               types.Blocks
@@ -193,7 +241,19 @@ func runChain(c Case, digestOnly bool) (kit.Result, string) {
 		periodEnds                 int
 		halted                     bool
 		reexecuted                 int
+		// successful self-withdrawals / delegation unbinds of the current period, by validator
+		selfWd, unbound = map[common.Address]bool{}, map[common.Address]bool{}
+		resetPeriod     bool
 	)
+	// negative-pending-record: some validator has both in this period (incl. the current block)
+	negRec := func() bool {
+		for v := range selfWd {
+			if unbound[v] {
+				return true
+			}
+		}
+		return false
+	}
 	for bi, bs := range c.Blocks {
 		preState, err := net.A.State()
 		if err != nil {
@@ -226,10 +286,21 @@ func runChain(c Case, digestOnly bool) (kit.Result, string) {
 			}
 			continue
 		}
+		if resetPeriod {
+			selfWd, unbound, resetPeriod = map[common.Address]bool{}, map[common.Address]bool{}, false
+		}
 		hasStaking := false
-		for _, tx := range step.Built.Included {
+		for i, tx := range step.Built.Included {
 			if m := step.Metas[tx.Hash()]; m != nil && m.Staking {
 				hasStaking = true
+				if i < len(step.Built.Receipts) && step.Built.Receipts[i].Status == types.ReceiptStatusSuccessful {
+					if m.Action == staking.ValidatorWithDraw {
+						selfWd[m.Target] = true
+					}
+					if m.Action == staking.DelegationSub {
+						unbound[m.Target] = true
+					}
+				}
 			}
 		}
 		interesting := hasStaking || len(hdr.SlashData) > 0 || len(step.Evidences) > 0 || step.PeriodEnd
@@ -241,6 +312,7 @@ func runChain(c Case, digestOnly bool) (kit.Result, string) {
 		}
 		if step.PeriodEnd {
 			periodEnds++
+			resetPeriod = true
 		}
 		if interesting {
 			nontrivialBlocks++
@@ -257,6 +329,9 @@ func runChain(c Case, digestOnly bool) (kit.Result, string) {
 					continue
 				}
 				if d := first.diff(e); d != "" {
+					if negRec() && d == "staking root" {
+						return kit.Fail(classNegRec, "block %d: execution %d differs from execution 0 in the staking root: a validator has a successful self-withdrawal and a successful delegation unbind in this period (negative pending record, dirty records persisted in map order until the encoding error)", num, k), ""
+					}
 					return kit.Fail("nondeterministic-execution", "block %d (%d txs, slashdata %d bytes, period end %v): execution %d differs from execution 0 in: %s",
 						num, len(step.Built.Included), len(hdr.SlashData), step.PeriodEnd, k, d), ""
 				}
@@ -267,6 +342,9 @@ func runChain(c Case, digestOnly bool) (kit.Result, string) {
 				if ok, why := zeroPenaltyPredicate(step, preState); ok {
 					return kit.Fail(classZeroPenalty, "block %d: importer and builder disagree: %s (process err=%v validate err=%v)", num, why, first.err, first.validateErr), ""
 				}
+				if negRec() && first.err == nil && first.root == hdr.Root && first.valRoot == hdr.ValRoot && first.receiptHash == hdr.ReceiptHash {
+					return kit.Fail(classNegRec, "block %d: builder and importer compute different staking roots: a validator has a successful self-withdrawal and a successful delegation unbind in this period (negative pending record)", num), ""
+				}
 				return kit.Fail("builder-importer-disagree", "block %d (%d txs, slashdata %d bytes, period end %v): executing the built block on the importer gives process err=%v validate err=%v; roots equal: state %v validator %v staking %v; receipts %v bloom %v gas %v",
 					num, len(step.Built.Included), len(hdr.SlashData), step.PeriodEnd, first.err, first.validateErr,
 					first.root == hdr.Root, first.valRoot == hdr.ValRoot, first.stakingRoot == hdr.StakingRoot, first.receiptHash == hdr.ReceiptHash, first.bloom == hdr.Bloom, first.gasUsed == hdr.GasUsed), ""
@@ -274,6 +352,9 @@ func runChain(c Case, digestOnly bool) (kit.Result, string) {
 		}
 		// ---- (a) differential: the import path of another node accepts the block unchanged
 		if err := net.B.Import(blk); err != nil {
+			if negRec() && strings.Contains(err.Error(), "staking root") {
+				return kit.Fail(classNegRec, "block %d: the importer rejects the built block (%v): negative pending record of a validator with a self-withdrawal and a delegation unbind in this period", num, err), ""
+			}
 			if ok, why := zeroPenaltyPredicate(step, preState); ok {
 				return kit.Fail(classZeroPenalty, "block %d: importer rejects the built block (%v): %s", num, err, why), ""
 			}
@@ -314,6 +395,11 @@ func runChain(c Case, digestOnly bool) (kit.Result, string) {
 	flag(stakingB >= 5, "staking-blocks>=5")
 	flag(periodEnds >= 3, "periods>=3")
 	flag(c.Batch > 0, "batch-import")
+	flag(workerBlocks > 0, "built-by-real-worker")
+	flag(crossSame > 0, "worker==mirror")
+	// not a violation of the statement (it may be builder-side nondeterminism or a changed
+	// packing policy); reported so that a drift between worker.go and the mirror is visible
+	flag(crossDiff > 0, "worker!=mirror")
 	for l := range w.Excluded {
 		labels = append(labels, l)
 	}
@@ -390,7 +476,9 @@ func TestChildDigest(t *testing.T) {
 var _ = kit.Register(kit.Prop[Case]{
 	Name: "BuilderImporterDeterminism",
 	Rule: "chains of 2*frequency+2..40 (thorough 90) blocks over the C07 alphabet (transfers, contracts, all staking actions, evidences, period ends) built " +
-		"by the mirrored commitNewWork (real TxPool ordering in 2/3 of the blocks) on node A; every block that contains a staking transaction, " +
+		"on node A by the REAL miner.worker.commitNewWork (2/3 of the blocks: real TxPool, price/nonce order, gas-pool accounting; run synchronously through the " +
+		"miner shim) or by the mirrored builder (pool bypassed, case order); in half of the cases one block carries a gas-pool scenario (failing transactions with " +
+		"gas limits of 90 % of the block); in a third of the cases every worker block is also assembled by the mirror and the hashes compared (label only); every block that contains a staking transaction, " +
 		"slash data, a posted evidence or ends a period (and every n-th other block) is executed K=3 (thorough 5) times (at most 10, thorough 30, blocks per case plus all with slash data) by the real " +
 		"Processor.Process of node B on fresh state databases and compared field by field and with the header, then imported by InsertChain on B; " +
 		"in a third of the cases a third node imports the same chain in batches. Non-trivial: >= 4 such blocks and >= 1 block with a staking transaction.",
